@@ -177,8 +177,8 @@ fn main() {
                 let reps = match (thorough, n) {
                     (false, 0..=6) => 12,
                     (false, _) => 3,
-                    (true, 0..=6) => 300,
-                    (true, _) => 60,
+                    (true, 0..=6) => 2400,
+                    (true, _) => 400,
                 };
                 for rep in 0..reps {
                     for (oi, op) in OPS.iter().enumerate() {
